@@ -214,6 +214,20 @@ func c18Bodies(maxLen int) *Scenario {
 				}
 			}
 			gen(nil)
+			// JSON white space (SP, HT, LF, CR) around a body and between its tokens changes nothing
+			nb := len(bodies)
+			for bi := 0; bi < nb; bi++ {
+				bd := bodies[bi]
+				if len(bd.members) > 1 && bi%16 != 0 {
+					continue
+				}
+				for _, w := range []string{" ", "\t", "\n", "\r", "\r\n", " \r\n\t "} {
+					bodies = append(bodies, body{w + bd.text, bd.members, bd.isArr}, body{bd.text + w, bd.members, bd.isArr})
+					if bd.isArr {
+						bodies = append(bodies, body{"[" + w + strings.TrimSuffix(strings.TrimPrefix(bd.text, "["), "]") + w + "]", bd.members, true})
+					}
+				}
+			}
 			run := func(f func(b jhttp.Bridge, tags *[]string)) *vs.Exec {
 				return vs.Run(nil, func() {
 					var tags []string
